@@ -34,6 +34,8 @@ var specs = []string{
 	"grammar bad ; start = \"a\" = ;",
 	// 8: invalid (lexical)
 	"grammar bad ; start = \"a\" # ;",
+	// 9: rules first, then directives whose rule handles repeat productions declared above (and one that is new)
+	"grammar late ; start = e ; e = e \"+\" e | e e | \"a\" | f ; f = \"b\" ; @left < e = e \"+\" e > \"+\" ; @right < e = e e > < f = \"b\" > < f = \"b\" \"b\" > ; g = e ; @none < g = e > ;",
 }
 
 var posRE = regexp.MustCompile(`f\.g:(\d+):(\d+)`)
@@ -169,7 +171,7 @@ func main() {
 		r.Finish()
 	}
 	if r.Fork(16) {
-		r.Set("rule", "9 specifications (6 valid covering every token kind, 3 invalid) x layouts: every separator choice in every gap, a comment of three kinds in every gap, every generated short comment (block bodies over {*,/,x,blank,LF,CR} up to length 3 quick / 4 thorough, line bodies up to 2) in every gap, final newline/blank/comment variants, every subset of optional semicolons (<= 6 positions), and the padding sweep: every gap x every padding amount in the tier's range x 4 fillers (blanks, newlines, one long comment, short comments); non-trivial = a layout different from the canonical one; distinct by text hash")
+		r.Set("rule", "10 specifications (7 valid covering every token kind and both orders of rules and rule handles, 3 invalid) x layouts: every separator choice in every gap, a comment of three kinds in every gap, every generated short comment (block bodies over {*,/,x,blank,LF,CR} up to length 3 quick / 4 thorough, line bodies up to 2) in every gap, final newline/blank/comment variants, every subset of optional semicolons (<= 6 positions), and the padding sweep: every gap x every padding amount in the tier's range x 4 fillers (blanks, newlines, one long comment, short comments); non-trivial = a layout different from the canonical one; distinct by text hash")
 		r.Set("evaluations", r.Get("layouts"))
 		r.Finish()
 	}
